@@ -68,7 +68,13 @@ CONFIG = {
              "Large part (deterministic): caterpillar, balanced, star, random-recursive and bushy (blocks of 1-40 "
              "children) trees with exactly 1100 / 2050 / 5000 (thorough also 20000) nodes and 1023-1028, 2047-2051 "
              "nodes x start nodes {seed, largest child subtree, middle of preorder, last node} x {no filter, parity "
-             "filter} x every iterator (in-order only when depth <= 100: the library's in-order is recursive)."),
+             "filter} x every iterator; plus trees far deeper than the default recursion limit: ladders of 1100 and "
+             "2500 (thorough 5000) tips, unifurcation chains of 1500 / 3000 (thorough 10000) nodes, and a 'broom' "
+             "(leaf, long unifurcation chain, long ladder below the seed) so that the deep parts also lie below "
+             "non-seed start nodes. Every library call of this part (Tree constructor, iterators, collections, len, "
+             "apply, calc_node_ages) runs under sys.setrecursionlimit(current depth + 1000), i.e. what a user's "
+             "interpreter gives it; harness code keeps the raised limit. A RecursionError inside the library is a "
+             "violation (the traversal does not visit every node once)."),
     "exhaustive_note": {"quick": "all ordered shapes with 1-5 leaves (61) + each with one unifurcation above each node, "
                                  "x every start node x 9 filters x every iterator; all ordered shapes with 3-4 leaves "
                                  "x 3 cache sets x 5 restructuring ops x every target; 36 listed large trees",
@@ -91,6 +97,13 @@ CONFIG = {
                     "age-order is asserted on exactly ultrametric trees with dyadic lengths after calc_node_ages(); "
                     "order among equal ages is not asserted",
                     "in-order on a subtree that is not strictly bifurcating must end in TypeError",
+                    "measured on the unmodified library under the default recursion limit with trees of depth 1024-"
+                    "2999: every iterator, collection method, len(), apply(), calc_node_ages() and the Tree "
+                    "constructor is iterative, EXCEPT in-order (Node.inorder_iter and the Tree wrappers), which nests "
+                    "one generator per level and raises RecursionError on a strictly bifurcating (sub)tree of height "
+                    ">= ~998; that is reported under the narrow key C15.inorder:RecursionError:subtree_height>=900 "
+                    "(known finding / fix in /verif/pending), a RecursionError of in-order on a shallower subtree or "
+                    "of any other call is an ordinary violation",
                     "ancestor_iter yields the nearest ancestor first",
                     "histories: an exception raised by a cache-filling or restructuring call, or a tree left malformed "
                     "by it, is counted in the class histogram and not judged here (C03/C07/C08 own those); the "
@@ -1189,7 +1202,10 @@ def check_large(ctx, item):
     spec = large_spec(item["family"], item["nodes"], item["seed"])
     m = sum(1 for s in shapes.spec_nodes(spec) if s["ch"])
     set_heights(spec, [8] * m)
-    tree = shapes.build_tree(spec)
+    # the Tree constructor walks the tree itself (update_taxon_namespace): a library traversal like any other, so it
+    # also runs under the user's recursion limit and a RecursionError in it is reported, not a harness error
+    with user_recursion_limit():
+        tree = ctx.call("C15.exception:Tree_constructor", shapes.build_tree, spec)
     rt, problems = snapshot(tree)
     n = len(rt.parent)
     if problems or n != item["nodes"]:
